@@ -171,6 +171,55 @@ class C01(fc.FlowCheck):
                     break
             if out:
                 break
+        return out + self.config_only_show_tracebacks()
+
+    def config_only_show_tracebacks(self):
+        """show_tracebacks switched off in the application's config only (not on the request object, as the generated
+        scenarios do), in a section one of whose other entries makes its namespace handler fail at request time
+        (`error_page.4xx`: int('4xx') raises): the `request` namespace is registered, and applied, before `error_page`,
+        `tools` and user namespaces, so the 500 must already be the terse one.  Oracle only."""
+        import cherrypy
+        from ..impl import wsgi
+        out = []
+
+        class Root:
+            @cherrypy.expose
+            def index(self):
+                return b'ok'
+
+        def failing(k, v):
+            raise RuntimeError('namespace handler fails: secret=%s' % v)
+        for conf in ({'request.show_tracebacks': False, 'error_page.4xx': 'custom-page'},
+                     {'request.show_tracebacks': False, 'audit.level': 'hunter2'}):
+            app = wsgi.make_app(Root(), {'/': conf})
+            if 'audit.level' in conf:
+                class Req(app.request_class):
+                    namespaces = app.request_class.namespaces.copy()
+                Req.namespaces['audit'] = failing
+                app.request_class = Req
+            try:
+                r = wsgi.call(app, 'GET', '/')
+            finally:
+                import logging
+                try:
+                    cherrypy.engine.unsubscribe('graceful', app.log.reopen_files)
+                except Exception:
+                    pass
+                for lg in (app.log.error_log, app.log.access_log):
+                    logging.Logger.manager.loggerDict.pop(lg.name, None)
+            self.count('extra: show_tracebacks off in config only, failing namespace handler')
+            text = r['body'].decode('latin-1')
+            leaks = [w for w in ('Traceback (most recent call last)', 'ValueError', 'RuntimeError', 'hunter2', 'File "')
+                     if w in text]
+            if r['escaped'] or r['status'] != 500 or leaks:
+                out.append(core.Violation(
+                    'leak:config-only-show_tracebacks',
+                    'section %r: a namespace handler fails while the config is applied; answered %s%s, the page contains '
+                    '%r although request.show_tracebacks is off in the same section'
+                    % (sorted(conf), r['status'], ' (escaped %s)' % r['escaped'] if r['escaped'] else '', leaks),
+                    case={'k': 'config-only-show-tracebacks', 'conf': sorted(conf)},
+                    observed={'status': r['status'], 'leaks': leaks, 'body': text[:300]}))
+                break
         return out
 
     def _hook_ran(self, obs, hid):
